@@ -350,6 +350,27 @@ def bitop(op, a, b, ty):
     r = f(as_bv(a, bits), as_bv(b, bits))
     return z3.BV2Int(r, is_signed=(lo < 0))
 
+_INDEX = {}
+def index_of(fns):
+    """(by_last, by_name, closures) lookup tables of a MIR dump; cached: building them walks every function, which in a forked worker
+    copies the whole dump page by page (reference counts) — once per process is enough, once in the parent is better"""
+    key = id(fns)
+    if key in _INDEX: return _INDEX[key]
+    by_last = {}; seen_sig = set()
+    for f in fns:
+        sig = (f.name, tuple(f.params))
+        if sig in seen_sig and not f.name.endswith('::fmt'): continue       # const fns are dumped twice (runtime MIR and CTFE MIR)
+        seen_sig.add(sig)
+        by_last.setdefault(f.name.split('::')[-1], []).append(f)
+    by_name = {}
+    for f in fns: by_name.setdefault(f.name, f)
+    closures = {}
+    for f in fns:
+        if '{closure#' in f.name and f.params:
+            closures[re.sub(r'^&(mut )?', '', f.params[0][1]).strip()] = f
+    _INDEX[key] = (by_last, by_name, closures)
+    return _INDEX[key]
+
 _SWITCH_ARMS = {}
 class Frame(dict):
     """locals of one activation: index -> Cell, created lazily"""
@@ -360,18 +381,7 @@ class Engine:
     FUEL = 400_000
     def __init__(s, fns, enums, feas_timeout_ms=250):
         s.fns = fns; s.enums = dict(STD_ENUMS); s.enums.update(enums)
-        s.by_last = {}; seen_sig = set()
-        for f in fns:
-            sig = (f.name, tuple(f.params))
-            if sig in seen_sig and not f.name.endswith('::fmt'): continue       # const fns are dumped twice (runtime MIR and CTFE MIR)
-            seen_sig.add(sig)
-            s.by_last.setdefault(f.name.split('::')[-1], []).append(f)
-        s.by_name = {}
-        for f in fns: s.by_name.setdefault(f.name, f)
-        s.closures = {}
-        for f in fns:
-            if '{closure#' in f.name and f.params:
-                s.closures[re.sub(r'^&(mut )?', '', f.params[0][1]).strip()] = f
+        s.by_last, s.by_name, s.closures = index_of(fns)          # read-only lookup tables, built once per MIR dump (and before workers fork)
         s.solver = z3.Solver(); s.solver.set('timeout', feas_timeout_ms); s.feas_timeout_full = 3000
         s.stubs = {}; s.models = []; s.steps = 0; s.total_steps = 0
         s.used_models = set(); s.used_fns = set(); s.used_stubs = set()
